@@ -296,6 +296,8 @@ def execute(w, keep=False, timeout=30):
             args += ["--fault", str(f)]
         if w.crash is not None:
             args += ["--crash", "%d,%d" % w.crash]
+        if getattr(w, "sched", None) is not None:
+            args += ["--sched", str(w.sched)]
         try:
             p = subprocess.run(args, cwd=root, stdout=subprocess.PIPE, stderr=subprocess.PIPE, timeout=timeout)
             out, rc = p.stdout.decode("utf-8", "replace"), p.returncode
@@ -527,3 +529,20 @@ def world_from_snapshot(w, dirs, files):
     for p, (content, ino) in files.items():
         v.files[tuple(p)] = (content, ino if len(groups[ino]) > 1 else None)
     return v
+
+
+def gen_world_dup_path(rng):
+    """D6: one torrent listing the same path twice (loadable: nothing in the format forbids it)"""
+    w = World()
+    fa = TFile(5, [b"x"], gen_content(rng, 5))
+    fb = TFile(4, [b"x"], gen_content(rng, 4))
+    g = GT(b"dup", 3, [fa, fb], True)
+    w.gts = [g]; w.docs = [g.doc]
+    w.dirs.add(w.export)
+    w.scan = [(b"scan0",)]
+    w.add_file((b"scan0", b".keep"), b"k")
+    w.add_file((b"scan0", b"a5"), fa.content)
+    w.add_file((b"scan0", b"b4"), fb.content)
+    w.add_file((b"bystander", b"note.txt"), b"do not touch")
+    w.tag = "duplicate path inside one torrent (D6)"
+    return w
